@@ -210,6 +210,7 @@ theorem onWaitDone (h : W6WInv n0 t) (w e : Nat) (hw : w < t.waits.length) (hst 
   split
   · rename_i hg
     simp only [Bool.and_eq_true, beq_iff_eq] at hg
+    replace hg := hg.2
     have hrun : (t.wait w).run = true := (h.1.chain w).2.1 hg.1
     -- the state after `flag := true; registerTask`
     have hG1 : W6GInv n0 ((t.modWait w fun x => { x with flag := true }).registerTask (t.wait w).owner
@@ -359,21 +360,58 @@ theorem W6Rm.winv {n0 : Nat} {t u : St} {K : List (HKey × Nat)} {w : Nat} (r : 
     (c : t.w6_view.evKey w ∈ K ∨ t.w6_view.evKey w ∉ t.w6_view.htabOf w ∨ (t.wait w).run = true) : W6WInv n0 u :=
   ⟨h.fire w hw hst u K r.hs (by rw [r.waits]) (fun w' => by simp [St.wait, r.waits]) r.nd r.mem hK a b c, r.g⟩
 
+/-- the body of `_on_tick` at countdown 0 after `state.timed_out = True`: register the TimeoutError task, remove the
+    temporary handlers -/
+def St.w6_tickFire (s : St) (w : Nat) : Outcome × St :=
+  let ws := s.wait w
+  let s1 := (s.addGen (.exc w false)).registerTask ws.owner ⟨ws.taskEvent, s.gens.length, some ws.parentGen⟩
+  let r1 := s1.removeHandler ws.hDone (some (ws.evName.child sfxDone))
+  if !r1.1 then (.raised, r1.2)
+  else
+    let r2 := match ws.hTick with
+      | some ht => r1.2.removeHandler ht (some Name.generateEvents)
+      | none => (true, r1.2)
+    if !r2.1 then (.raised, r2.2)
+    else if !ws.run then
+      let r3 := r2.2.removeHandler ws.hEvent (some ws.evName)
+      if !r3.1 then (.raised, r3.2) else (.none, r3.2)
+    else (.none, r2.2)
+
+/-- `timedOut` is not part of the view the wait-protocol invariant reads -/
+theorem St.w6_timedOut_view (t : St) (w : Nat) :
+    (t.modWait w fun x => { x with timedOut := true }).w6_view = t.w6_view := by
+  unfold St.w6_view
+  congr 1
+  · simp
+  · funext w'; exact St.w6_modWait_wait_pres t WaitSt.w6h w (fun x => { x with timedOut := true }) (fun _ => rfl) w'
+  · funext w'; exact St.w6_modWait_wait_pres t WaitSt.w6g w (fun x => { x with timedOut := true }) (fun _ => rfl) w'
+
+/-- `_on_tick` in terms of `w6_tickFire` -/
+theorem St.w6_onWaitTick_eq (t : St) (w : Nat) (hw : w < t.waits.length) :
+    t.onWaitTick w =
+      if (t.wait w).flag || (t.wait w).timedOut then (.none, t)
+      else if (t.wait w).timeout == 0 then (t.modWait w fun x => { x with timedOut := true }).w6_tickFire w
+      else if (t.wait w).timeout > 0 then (.none, t.modWait w fun x => { x with timeout := x.timeout - 1 })
+      else (.none, t) := by
+  unfold St.onWaitTick St.w6_tickFire
+  dsimp only
+  rw [St.w6_modWait_wait_lt _ _ _ hw]
+  rfl
+
 namespace W6WInv
 variable {n0 : Nat} {t : St}
 
-/-- `_on_tick` -/
-theorem onWaitTick (h : W6WInv n0 t) (w : Nat) (hw : w < t.waits.length) (hst : (t.wait w).started = true) :
-    W6WInv n0 (t.onWaitTick w).2 := by
+/-- `_on_tick` at countdown 0 (after `timed_out := True`) -/
+theorem tickFire (h : W6WInv n0 t) (w : Nat) (hw : w < t.waits.length) (hst : (t.wait w).started = true) :
+    W6WInv n0 (t.w6_tickFire w).2 := by
   obtain ⟨hne1, hne2⟩ := h.1.ids w hw hst
   obtain ⟨_, kE2, _, kE4⟩ := h.1.recEv w hw hst
   obtain ⟨_, kD2, _, kD4⟩ := h.1.recDone w hw hst
   simp only [St.w6_view_wh, St.w6_view_handler, WaitSt.w6h] at hne1 hne2 kE2 kE4 kD2 kD4
   have hpg := h.2.pgen w hw hst
   simp only [St.w6_view_wg, WaitSt.w6g] at hpg
-  unfold St.onWaitTick
+  unfold St.w6_tickFire
   dsimp only
-  split
   · -- the countdown is at 0: register the time-out task, remove the handlers
     have r0 : W6Rm n0 t (t.wait w).owner ((t.addGen (.exc w false)).registerTask (t.wait w).owner
         ⟨(t.wait w).taskEvent, t.gens.length, some (t.wait w).parentGen⟩) [] := by
@@ -497,6 +535,20 @@ theorem onWaitTick (h : W6WInv n0 t) (w : Nat) (hw : w < t.waits.length) (hst : 
           · rename_i hrun
             have hrun' : (t.wait w).run = true := by simpa using hrun
             exact r2.winv h.1 hw hst hK2 (by simp [W6View.doneKey, WaitSt.w6h]) hb (Or.inr (Or.inr hrun'))
+
+/-- `_on_tick` -/
+theorem onWaitTick (h : W6WInv n0 t) (w : Nat) (hw : w < t.waits.length) (hst : (t.wait w).started = true) :
+    W6WInv n0 (t.onWaitTick w).2 := by
+  rw [St.w6_onWaitTick_eq t w hw]
+  by_cases hgd : ((t.wait w).flag || (t.wait w).timedOut) = true
+  · rw [if_pos hgd]; exact h
+  rw [if_neg hgd]
+  split
+  · have hv := St.w6_timedOut_view t w
+    have h' : W6WInv n0 (t.modWait w fun x => { x with timedOut := true }) := by
+      unfold W6WInv at h ⊢; rw [hv]; exact h
+    refine h'.tickFire w (by simpa using hw) ?_
+    rw [St.w6_modWait_wait_lt _ _ _ hw]; exact hst
   · split
     · -- count down
       rename_i htm
